@@ -1,1 +1,747 @@
-(* placeholder: proofs are being written *)
+(* Proofs for C11 (isotopic_pattern/convolution.rs). *)
+From Coq Require Import ZArith List Bool Lia Field Ring Field_theory Ring_theory Permutation.
+From CE Require Import Num OField Mz Peak Conv ConvSpec.
+Import ListNotations.
+
+(* ---------- list plumbing ---------- *)
+
+Lemma flat_map_nil_fun {A B : Type} (l : list A) : flat_map (fun _ : A => @nil B) l = [].
+Proof. induction l as [|a l IH]; [reflexivity|]. cbn [flat_map]. exact IH. Qed.
+
+Lemma Permutation_flat_map_ext {A B : Type} (f g : A -> list B) (l : list A) :
+  (forall x, Permutation (f x) (g x)) -> Permutation (flat_map f l) (flat_map g l).
+Proof.
+  intros H. induction l as [|a l IH]; [constructor|].
+  cbn [flat_map]. apply Permutation_app; [apply H | exact IH].
+Qed.
+
+Lemma flat_map_cons_split {A B : Type} (g : A -> B) (h : A -> list B) (l : list A) :
+  Permutation (flat_map (fun a => g a :: h a) l) (map g l ++ flat_map h l).
+Proof.
+  induction l as [|a l IH]; [constructor|].
+  cbn [flat_map map app]. apply perm_skip.
+  eapply Permutation_trans; [apply Permutation_app_head; exact IH|].
+  apply Permutation_app_swap_app.
+Qed.
+
+Lemma flat_map_swap {X Y Z : Type} (f : X -> Y -> Z) (A : list X) (B : list Y) :
+  Permutation (flat_map (fun b => map (fun a => f a b) A) B)
+              (flat_map (fun a => map (fun b => f a b) B) A).
+Proof.
+  induction B as [|b B IH].
+  - cbn [flat_map map]. rewrite flat_map_nil_fun. constructor.
+  - cbn [flat_map map].
+    eapply Permutation_trans; [apply Permutation_app_head; exact IH|].
+    apply Permutation_sym.
+    apply (flat_map_cons_split (fun a => f a b) (fun a => map (fun b0 => f a b0) B) A).
+Qed.
+
+Lemma Permutation_filter {A : Type} (p : A -> bool) (l l' : list A) :
+  Permutation l l' -> Permutation (filter p l) (filter p l').
+Proof.
+  induction 1 as [|x l l' H IH|x y l|l l' l'' H1 IH1 H2 IH2].
+  - constructor.
+  - cbn [filter]. destruct (p x); [apply perm_skip|]; exact IH.
+  - cbn [filter]. destruct (p x), (p y); try apply Permutation_refl. apply perm_swap.
+  - eapply Permutation_trans; eassumption.
+Qed.
+
+Lemma filter_flat_map {A B : Type} (p : B -> bool) (f : A -> list B) (l : list A) :
+  filter p (flat_map f l) = flat_map (fun x => filter p (f x)) l.
+Proof.
+  induction l as [|a l IH]; [reflexivity|].
+  cbn [flat_map]. rewrite filter_app, IH. reflexivity.
+Qed.
+
+Lemma filter_idem {A : Type} (p : A -> bool) (l : list A) : filter p (filter p l) = filter p l.
+Proof.
+  induction l as [|a l IH]; [reflexivity|].
+  cbn [filter]. destruct (p a) eqn:E; [cbn [filter]; rewrite E, IH; reflexivity | exact IH].
+Qed.
+
+Lemma filter_all {A : Type} (p : A -> bool) (l : list A) :
+  (forall x, In x l -> p x = true) -> filter p l = l.
+Proof.
+  induction l as [|a l IH]; intros H; [reflexivity|].
+  cbn [filter]. rewrite (H a (or_introl eq_refl)), IH; [reflexivity|].
+  intros x Hx. apply H. right. exact Hx.
+Qed.
+
+Section ConvProofs.
+  Context {F : Type} (N : Num F).
+
+  Notation distF := (dist (F:=F)).
+
+  (* ---------- the tail of the public function (every Num) ---------- *)
+
+  Lemma empty_result : forall c z carrier thr,
+    conv_all N c thr = [] -> isotopic_convolution N c z carrier thr = [].
+  Proof.
+    intros c z carrier thr H. unfold isotopic_convolution. rewrite H. reflexivity.
+  Qed.
+
+  (* ---------- cross_all / convolve_with, structurally (every Num) ---------- *)
+
+  (* one product entry: (mass sum, probability product); [ie] from the element, [de] from the distribution *)
+  Definition pr (ie de : F * F) : F * F := (add N (fst de) (fst ie), mul N (snd de) (snd ie)).
+
+  Lemma cross_all_eq (d e : distF) : cross_all N d e = flat_map (fun ie => map (pr ie) d) e.
+  Proof. reflexivity. Qed.
+
+  Lemma cross_nil_r (d : distF) : cross_all N d [] = [].
+  Proof. reflexivity. Qed.
+
+  Lemma cross_cons_r (d : distF) b e : cross_all N d (b :: e) = map (pr b) d ++ cross_all N d e.
+  Proof. reflexivity. Qed.
+
+  Lemma cross_app_r (d e1 e2 : distF) : cross_all N d (e1 ++ e2) = cross_all N d e1 ++ cross_all N d e2.
+  Proof. unfold cross_all. apply flat_map_app. Qed.
+
+  Lemma conv_noprune (d e : distF) thr :
+    (forall x, ltb N x thr = false) -> convolve_with N d e thr = cross_all N d e.
+  Proof.
+    intros Hnp. unfold convolve_with, cross_all. apply flat_map_ext. intros ie.
+    induction d as [|de d IH]; [reflexivity|].
+    cbn [flat_map map]. rewrite Hnp, IH. reflexivity.
+  Qed.
+
+  Lemma cross_in (d e : distF) x :
+    In x (cross_all N d e) <-> exists a b, In a d /\ In b e /\ x = pr b a.
+  Proof.
+    rewrite cross_all_eq, in_flat_map. split.
+    - intros [b [Hb Hx]]. apply in_map_iff in Hx. destruct Hx as [a [Hx Ha]].
+      exists a, b. auto.
+    - intros [a [b [Ha [Hb Hx]]]]. exists b. split; [exact Hb|].
+      apply in_map_iff. exists a. auto.
+  Qed.
+
+  Lemma conv_in (d e : distF) thr x :
+    In x (convolve_with N d e thr) <->
+    exists a b, In a d /\ In b e /\ x = pr b a /\ ltb N (mul N (snd a) (snd b)) thr = false.
+  Proof.
+    unfold convolve_with. rewrite in_flat_map. split.
+    - intros [b [Hb Hx]]. apply in_flat_map in Hx. destruct Hx as [a [Ha Hx]].
+      destruct (ltb N (mul N (snd a) (snd b)) thr) eqn:E; [destruct Hx|].
+      destruct Hx as [Hx|[]]. exists a, b. auto.
+    - intros [a [b [Ha [Hb [Hx E]]]]]. exists b. split; [exact Hb|].
+      apply in_flat_map. exists a. split; [exact Ha|].
+      rewrite E. left. symmetry. exact Hx.
+  Qed.
+
+  Lemma conv_incl (A A' B B' : distF) thr :
+    incl A A' -> incl B B' -> incl (convolve_with N A B thr) (cross_all N A' B').
+  Proof.
+    intros HA HB x Hx. apply conv_in in Hx. destruct Hx as [a [b [Ha [Hb [Hx _]]]]].
+    apply cross_in. exists a, b. auto.
+  Qed.
+
+  Lemma cross_perm_l (A A' B : distF) :
+    Permutation A A' -> Permutation (cross_all N A B) (cross_all N A' B).
+  Proof.
+    intros H. rewrite !cross_all_eq. apply Permutation_flat_map_ext.
+    intros ie. apply Permutation_map. exact H.
+  Qed.
+
+  Lemma cross_perm_r (A B B' : distF) :
+    Permutation B B' -> Permutation (cross_all N A B) (cross_all N A B').
+  Proof. intros H. rewrite !cross_all_eq. apply Permutation_flat_map. exact H. Qed.
+
+  Lemma cross_perm (A A' B B' : distF) :
+    Permutation A A' -> Permutation B B' -> Permutation (cross_all N A B) (cross_all N A' B').
+  Proof.
+    intros HA HB. eapply Permutation_trans; [apply cross_perm_l; exact HA | apply cross_perm_r; exact HB].
+  Qed.
+
+  (* powers of two as fuel bounds *)
+  Definition p2 (f : nat) : Z := (2 ^ Z.of_nat f)%Z.
+  Lemma p2_0 : p2 0 = 1%Z. Proof. reflexivity. Qed.
+  Lemma p2_S f : p2 (S f) = (2 * p2 f)%Z.
+  Proof. unfold p2. rewrite Nat2Z.inj_succ, Z.pow_succ_r by lia. reflexivity. Qed.
+  Lemma p2_pos f : (0 < p2 f)%Z.
+  Proof. unfold p2. apply Z.pow_pos_nonneg; lia. Qed.
+  Lemma p2_mono a b : (a <= b)%nat -> (p2 a <= p2 b)%Z.
+  Proof. intros H. unfold p2. apply Z.pow_le_mono_r; lia. Qed.
+
+  Section WithField.
+    Hypothesis OF : OField N.
+    Add Field Fc : (of_field N OF).
+
+    Local Notation "0" := (zero N).
+    Local Notation "1" := (one N).
+    Local Infix "+!" := (add N) (at level 50, left associativity).
+    Local Infix "*!" := (mul N) (at level 40, left associativity).
+    Local Infix "<=!" := (fle N) (at level 70).
+    Local Infix "<!" := (flt N) (at level 70).
+
+    (* ---------- cross_all is a commutative monoid up to Permutation ---------- *)
+
+    Lemma pr_eq (a b : F * F) m p : m = fst a +! fst b -> p = snd a *! snd b -> (m, p) = pr b a.
+    Proof. intros -> ->. reflexivity. Qed.
+
+    Lemma cross_unit_r (A : distF) : cross_all N A [(0, 1)] = A.
+    Proof.
+      rewrite cross_cons_r, cross_nil_r, app_nil_r.
+      induction A as [|[m p] A IH]; [reflexivity|].
+      cbn [map]. rewrite IH. f_equal. unfold pr. cbn [fst snd]. f_equal; ring.
+    Qed.
+
+    Lemma cross_unit_l (E : distF) : cross_all N [(0, 1)] E = E.
+    Proof.
+      induction E as [|[m p] E IH]; [reflexivity|].
+      rewrite cross_cons_r, IH. cbn [map app]. f_equal. unfold pr. cbn [fst snd]. f_equal; ring.
+    Qed.
+
+    Lemma map_pr_cross c (A B : distF) : map (pr c) (cross_all N A B) = cross_all N A (map (pr c) B).
+    Proof.
+      induction B as [|b B IH]; [reflexivity|].
+      cbn [map]. rewrite !cross_cons_r, map_app, IH. f_equal.
+      rewrite map_map. apply map_ext. intros a. unfold pr. cbn [fst snd]. f_equal; ring.
+    Qed.
+
+    Lemma cross_assoc (A B C : distF) :
+      cross_all N (cross_all N A B) C = cross_all N A (cross_all N B C).
+    Proof.
+      induction C as [|c C IH]; [reflexivity|].
+      rewrite !cross_cons_r, cross_app_r, IH. f_equal. apply map_pr_cross.
+    Qed.
+
+    Lemma cross_comm (A B : distF) : Permutation (cross_all N A B) (cross_all N B A).
+    Proof.
+      rewrite !cross_all_eq.
+      eapply Permutation_trans; [apply (flat_map_swap (fun a b => pr b a) A B)|].
+      apply Permutation_flat_map_ext. intros a.
+      erewrite map_ext; [apply Permutation_refl|].
+      intros b. unfold pr. cbn [fst snd]. f_equal; ring.
+    Qed.
+
+    Lemma np_1 (d : distF) : naive_pow N d 1 = d.
+    Proof. cbn [naive_pow]. apply cross_unit_l. Qed.
+
+    Lemma np_add (d : distF) a : forall b,
+      Permutation (naive_pow N d (a + b)) (cross_all N (naive_pow N d a) (naive_pow N d b)).
+    Proof.
+      induction b as [|b IH].
+      - rewrite Nat.add_0_r. cbn [naive_pow]. rewrite cross_unit_r. apply Permutation_refl.
+      - rewrite Nat.add_succ_r. cbn [naive_pow]. rewrite <- cross_assoc.
+        apply cross_perm_l. exact IH.
+    Qed.
+
+    (* ---------- the computation, generically in the relation between result and expansion ---------- *)
+
+    Section Generic.
+      Variable thr : F.
+      Variable R : distF -> distF -> Prop.
+      Hypothesis R_unit : R [(0, 1)] [(0, 1)].
+      Hypothesis R_conv : forall A A' B B', R A A' -> R B B' ->
+        R (convolve_with N A B thr) (cross_all N A' B').
+      Hypothesis R_perm : forall P U U', R P U -> Permutation U U' -> R P U'.
+
+      Lemma doubling_gen (d : distF) (n : Z) : forall fuel buffer power,
+        (0 < power)%Z -> (power mod 2 = 0)%Z -> (power / 2 <= n)%Z -> (n < power * p2 fuel)%Z ->
+        R buffer (naive_pow N d (Z.to_nat (power / 2))) ->
+        let r := doubling N fuel buffer power n thr in
+        R (fst r) (naive_pow N d (Z.to_nat (snd r / 2))) /\ (snd r / 2 <= n < snd r)%Z.
+      Proof.
+        induction fuel as [|fuel IH]; intros buffer power Hpos Hev Hlo Hhi HR; cbv zeta.
+        - cbn [doubling fst snd]. rewrite p2_0 in Hhi. split; [exact HR | lia].
+        - cbn [doubling]. destruct (power <=? n)%Z eqn:E.
+          + apply Z.leb_le in E. rewrite p2_S in Hhi.
+            assert (Hh : (power * 2 / 2 = power)%Z) by (apply Z.div_mul; lia).
+            apply IH.
+            * lia.
+            * apply Z.mod_mul. lia.
+            * rewrite Hh. exact E.
+            * lia.
+            * rewrite Hh.
+              assert (Hp : power = (power / 2 + power / 2)%Z).
+              { pose proof (Z.div_mod power 2 ltac:(lia)) as Hdm. lia. }
+              assert (H0 : (0 <= power / 2)%Z) by (apply Z.div_pos; lia).
+              eapply R_perm; [apply R_conv; exact HR|].
+              apply Permutation_sym.
+              rewrite Hp at 1. rewrite Z2Nat.inj_add by assumption. apply np_add.
+          + apply Z.leb_gt in E. cbn [fst snd]. split; [exact HR | lia].
+      Qed.
+
+      Lemma pow_gen_fuel (d : distF) (HRd : R d d) : forall f, (f <= 64)%nat -> forall n,
+        (0 <= n < p2 f)%Z -> R (convolve_pow N (S f) d n thr) (naive_pow N d (Z.to_nat n)).
+      Proof.
+        induction f as [|f IH]; intros Hf n Hn.
+        - rewrite p2_0 in Hn. assert (n = 0%Z) as -> by lia. cbn. exact R_unit.
+        - remember (S f) as f1 eqn:Ef1. cbn [convolve_pow].
+          destruct (n =? 0)%Z eqn:E0.
+          { apply Z.eqb_eq in E0. subst n. cbn. exact R_unit. }
+          destruct (n =? 1)%Z eqn:E1.
+          { apply Z.eqb_eq in E1. subst n. change (Z.to_nat 1) with 1%nat. rewrite np_1. exact HRd. }
+          apply Z.eqb_neq in E0. apply Z.eqb_neq in E1.
+          pose proof (doubling_gen d n 64 d 2%Z) as HD. cbv zeta in HD.
+          destruct (doubling N 64 d 2 n thr) as [buffer power] eqn:ED. cbn [fst snd] in HD.
+          destruct HD as [HRb Hpw].
+          + lia.
+          + reflexivity.
+          + change (2 / 2)%Z with 1%Z. lia.
+          + pose proof (p2_mono f1 64 Hf) as Hle. lia.
+          + change (2 / 2)%Z with 1%Z. change (Z.to_nat 1) with 1%nat. rewrite np_1. exact HRd.
+          + destruct (power / 2 <? n)%Z eqn:EL.
+            * apply Z.ltb_lt in EL.
+              assert (Hrem : (0 <= n - power / 2 < p2 f)%Z).
+              { subst f1. rewrite p2_S in Hn. Z.div_mod_to_equations. lia. }
+              eapply R_perm; [apply R_conv; [exact HRb | subst f1; apply IH; [lia | exact Hrem]]|].
+              apply Permutation_sym.
+              assert (H0 : (0 <= power / 2)%Z) by (Z.div_mod_to_equations; lia).
+              replace (Z.to_nat n) with (Z.to_nat (power / 2) + Z.to_nat (n - power / 2))%nat by lia.
+              apply np_add.
+            * apply Z.ltb_ge in EL. assert (power / 2 = n)%Z as <- by lia. exact HRb.
+      Qed.
+
+      Lemma pow_gen (d : distF) n : R d d -> (0 <= n < 2 ^ 31)%Z ->
+        R (convolve_pow N 64 d n thr) (naive_pow N d (Z.to_nat n)).
+      Proof.
+        intros HRd Hn. apply (pow_gen_fuel d HRd 63); [lia|].
+        pose proof (p2_mono 31 63 ltac:(lia)) as Hm. change (p2 31) with (2 ^ 31)%Z in Hm. lia.
+      Qed.
+
+      (* the per-element driver *)
+      Definition good (c : list (distF * Z)) : Prop :=
+        forall ec, In ec c -> R (fst ec) (fst ec) /\ (0 <= snd ec < 2 ^ 31)%Z.
+
+      Lemma all_gen_tail : forall (c : list (distF * Z)) out acc, good c -> R out acc ->
+        R (snd (fold_left (fun st ec =>
+                  let '(first, out) := st in
+                  let tmp := convolve_pow N 64 (fst ec) (snd ec) thr in
+                  if (first : bool) then (false, tmp) else (false, convolve_with N tmp out thr))
+                c (false, out)))
+          (fold_left (fun acc ec => cross_all N acc (naive_pow N (fst ec) (Z.to_nat (snd ec)))) c acc).
+      Proof.
+        induction c as [|ec c IH]; intros out acc Hg HR.
+        - exact HR.
+        - cbn [fold_left]. cbv beta iota zeta. apply IH.
+          + intros ec' Hin. apply Hg. right. exact Hin.
+          + destruct (Hg ec (or_introl eq_refl)) as [HRd Hb].
+            eapply R_perm; [apply R_conv; [apply pow_gen; [exact HRd | exact Hb] | exact HR]|].
+            apply cross_comm.
+      Qed.
+
+      Lemma all_gen (c : list (distF * Z)) : c <> [] -> good c -> R (conv_all N c thr) (naive_all N c).
+      Proof.
+        intros Hne Hg. destruct c as [|ec c]; [congruence|].
+        unfold conv_all, naive_all. cbn [fold_left]. cbv beta iota zeta.
+        apply all_gen_tail.
+        - intros ec' Hin. apply Hg. right. exact Hin.
+        - destruct (Hg ec (or_introl eq_refl)) as [HRd Hb].
+          rewrite cross_unit_l. apply pow_gen; assumption.
+      Qed.
+    End Generic.
+
+    (* ---------- instance 1: nothing pruned, R = Permutation ---------- *)
+
+    Lemma pow_expansion : forall d n thr,
+      (0 <= n < 2 ^ 31)%Z -> (forall x, ltb N x thr = false) ->
+      Permutation (convolve_pow N 64 d n thr) (naive_pow N d (Z.to_nat n)).
+    Proof.
+      intros d n thr Hn Hnp.
+      apply (pow_gen thr (@Permutation (F * F))).
+      - apply Permutation_refl.
+      - intros A A' B B' HA HB. rewrite conv_noprune by exact Hnp. apply cross_perm; assumption.
+      - intros P U U' H1 H2. eapply Permutation_trans; eassumption.
+      - apply Permutation_refl.
+      - exact Hn.
+    Qed.
+
+    Lemma all_expansion : forall c thr,
+      c <> [] -> (forall ec, In ec c -> (0 <= snd ec < 2 ^ 31)%Z) -> (forall x, ltb N x thr = false) ->
+      Permutation (conv_all N c thr) (naive_all N c).
+    Proof.
+      intros c thr Hne Hb Hnp.
+      apply (all_gen thr (@Permutation (F * F))).
+      - apply Permutation_refl.
+      - intros A A' B B' HA HB. rewrite conv_noprune by exact Hnp. apply cross_perm; assumption.
+      - intros P U U' H1 H2. eapply Permutation_trans; eassumption.
+      - exact Hne.
+      - intros ec Hin. split; [apply Permutation_refl | apply Hb; exact Hin].
+    Qed.
+
+    (* ---------- instance 2: nothing is invented, R = incl ---------- *)
+
+    Lemma no_junk : forall c thr x,
+      c <> [] -> (forall ec, In ec c -> (0 <= snd ec < 2 ^ 31)%Z) ->
+      In x (conv_all N c thr) -> In x (naive_all N c).
+    Proof.
+      intros c thr x Hne Hb.
+      revert x. change (incl (conv_all N c thr) (naive_all N c)).
+      apply (all_gen thr (@incl (F * F))).
+      - apply incl_refl.
+      - intros A A' B B' HA HB. apply conv_incl; assumption.
+      - intros P U U' H1 H2 y Hy. apply (Permutation_in y H2). apply H1. exact Hy.
+      - exact Hne.
+      - intros ec Hin. split; [apply incl_refl | apply Hb; exact Hin].
+    Qed.
+
+    Lemma pow_no_junk : forall d n thr x,
+      (0 <= n < 2 ^ 31)%Z -> In x (convolve_pow N 64 d n thr) -> In x (naive_pow N d (Z.to_nat n)).
+    Proof.
+      intros d n thr x Hn.
+      revert x. change (incl (convolve_pow N 64 d n thr) (naive_pow N d (Z.to_nat n))).
+      apply (pow_gen thr (@incl (F * F))).
+      - apply incl_refl.
+      - intros A A' B B' HA HB. apply conv_incl; assumption.
+      - intros P U U' H1 H2 y Hy. apply (Permutation_in y H2). apply H1. exact Hy.
+      - apply incl_refl.
+      - exact Hn.
+    Qed.
+
+    (* ---------- ordered-field facts (from the OField record only) ---------- *)
+
+    Lemma le_add_r a x : 0 <=! x -> a <=! a +! x.
+    Proof.
+      intros H. pose proof (of_add_le N OF 0 x a H) as H'.
+      replace (0 +! a) with a in H' by ring.
+      replace (x +! a) with (a +! x) in H' by ring. exact H'.
+    Qed.
+
+    Lemma lt_le a b : a <! b -> a <=! b.
+    Proof.
+      unfold flt, fle. rewrite (of_ltb_def N OF). intros H.
+      destruct (of_le_total N OF a b) as [H1|H1]; [exact H1|].
+      unfold fle in H1. rewrite H1 in H. discriminate H.
+    Qed.
+
+    Lemma pos_neq0 a : 0 <! a -> a <> 0.
+    Proof.
+      unfold flt. rewrite (of_ltb_def N OF). intros H E. subst a.
+      rewrite (of_le_refl N OF 0) in H. discriminate H.
+    Qed.
+
+    Lemma mul_neq0 a b : a <> 0 -> b <> 0 -> a *! b <> 0.
+    Proof.
+      intros Ha Hb E. apply Hb.
+      replace b with (finv N a *! (a *! b)) by (field; exact Ha). rewrite E. ring.
+    Qed.
+
+    Lemma mul_pos a b : 0 <! a -> 0 <! b -> 0 <! a *! b.
+    Proof.
+      intros Ha Hb. unfold flt. rewrite (of_ltb_def N OF).
+      destruct (leb N (a *! b) 0) eqn:E; [exfalso|reflexivity].
+      apply (mul_neq0 a b (pos_neq0 a Ha) (pos_neq0 b Hb)).
+      apply (of_le_antisym N OF); [exact E|].
+      apply (of_mul_nonneg N OF); apply lt_le; assumption.
+    Qed.
+
+    Lemma sub_nonneg b : b <=! 1 -> 0 <=! sub N 1 b.
+    Proof.
+      intros H. pose proof (of_add_le N OF b 1 (opp N b) H) as H'.
+      replace (b +! opp N b) with 0 in H' by ring.
+      replace (1 +! opp N b) with (sub N 1 b) in H' by ring. exact H'.
+    Qed.
+
+    Lemma mul_le_l a b : 0 <=! a -> b <=! 1 -> a *! b <=! a.
+    Proof.
+      intros Ha Hb.
+      pose proof (le_add_r (a *! b) (a *! sub N 1 b)
+                    (of_mul_nonneg N OF _ _ Ha (sub_nonneg b Hb))) as H.
+      replace (a *! b +! a *! sub N 1 b) with a in H by ring. exact H.
+    Qed.
+
+    Lemma mul_le_r a b : 0 <=! b -> a <=! 1 -> a *! b <=! b.
+    Proof. intros Hb Ha. replace (a *! b) with (b *! a) by ring. apply mul_le_l; assumption. Qed.
+
+    Lemma lt_0_1 : 0 <! 1.
+    Proof.
+      unfold flt. rewrite (of_ltb_def N OF).
+      destruct (leb N 1 0) eqn:E; [exfalso|reflexivity].
+      apply (F_1_neq_0 (of_field N OF)).
+      apply (of_le_antisym N OF); [exact E|].
+      replace 1 with (1 *! 1) by ring.
+      destruct (of_le_total N OF 0 1) as [H|H]; [apply (of_mul_nonneg N OF); exact H|].
+      (* 1 <= 0 is the case at hand; then 0 <= -1 and 1 = (-1)(-1) *)
+      assert (Hm : 0 <=! opp N 1).
+      { pose proof (of_add_le N OF 1 0 (opp N 1) H) as H'.
+        replace (1 +! opp N 1) with 0 in H' by ring.
+        replace (0 +! opp N 1) with (opp N 1) in H' by ring. exact H'. }
+      replace (1 *! 1) with (opp N 1 *! opp N 1) by ring.
+      apply (of_mul_nonneg N OF); exact Hm.
+    Qed.
+
+    Lemma not_pruned t p : leb N t p = true -> ltb N p t = false.
+    Proof. intros H. rewrite (of_ltb_def N OF), H. reflexivity. Qed.
+
+    (* the hypothesis of the no-pruning theorems cannot be met in an ordered field: it says [thr] is a
+       lower bound of the whole field *)
+    Lemma noprune_unsatisfiable thr : ~ (forall x, ltb N x thr = false).
+    Proof.
+      intros H. specialize (H (sub N thr 1)). rewrite (of_ltb_def N OF) in H.
+      destruct (leb N thr (sub N thr 1)) eqn:E; [|discriminate H].
+      pose proof (of_add_le N OF _ _ (sub N 1 thr) E) as H'.
+      replace (thr +! sub N 1 thr) with 1 in H' by ring.
+      replace (sub N thr 1 +! sub N 1 thr) with 0 in H' by ring.
+      pose proof lt_0_1 as H1. unfold flt in H1. rewrite (of_ltb_def N OF) in H1.
+      unfold fle in H'. rewrite H' in H1. discriminate H1.
+    Qed.
+
+    (* ---------- instance 3: survivors ---------- *)
+
+    (* every probability lies in (0, 1] *)
+    Definition okd (U : distF) : Prop := forall x, In x U -> 0 <! snd x /\ snd x <=! 1.
+    (* every entry of U at or above the threshold is in P *)
+    Definition keeps (thr : F) (P U : distF) : Prop :=
+      forall x, In x U -> leb N thr (snd x) = true -> In x P.
+
+    Lemma okd_unit : okd [(0, 1)].
+    Proof.
+      intros x [<-|[]]. cbn [snd]. split; [exact lt_0_1 | apply (of_le_refl N OF)].
+    Qed.
+
+    Lemma okd_cross (A B : distF) : okd A -> okd B -> okd (cross_all N A B).
+    Proof.
+      intros HA HB x Hx. apply cross_in in Hx. destruct Hx as [a [b [Ha [Hb ->]]]].
+      unfold pr. cbn [snd].
+      destruct (HA a Ha) as [Ha0 Ha1]. destruct (HB b Hb) as [Hb0 Hb1].
+      split; [apply mul_pos; assumption|].
+      apply (of_le_trans N OF _ (snd a)); [|exact Ha1].
+      apply mul_le_l; [apply lt_le; exact Ha0 | exact Hb1].
+    Qed.
+
+    Lemma keeps_conv thr (A A' B B' : distF) :
+      okd A' -> okd B' -> keeps thr A A' -> keeps thr B B' ->
+      keeps thr (convolve_with N A B thr) (cross_all N A' B').
+    Proof.
+      intros HoA HoB HA HB x Hx Hthr. apply cross_in in Hx. destruct Hx as [a [b [Ha [Hb ->]]]].
+      unfold pr in Hthr. cbn [snd] in Hthr.
+      destruct (HoA a Ha) as [Ha0 Ha1]. destruct (HoB b Hb) as [Hb0 Hb1].
+      apply conv_in. exists a, b. repeat split.
+      - apply HA; [exact Ha|].
+        apply (of_le_trans N OF _ (snd a *! snd b)); [exact Hthr|].
+        apply mul_le_l; [apply lt_le; exact Ha0 | exact Hb1].
+      - apply HB; [exact Hb|].
+        apply (of_le_trans N OF _ (snd a *! snd b)); [exact Hthr|].
+        apply mul_le_r; [apply lt_le; exact Hb0 | exact Ha1].
+      - apply not_pruned. exact Hthr.
+    Qed.
+
+    Definition Rsurv (thr : F) (P U : distF) : Prop := okd U /\ keeps thr P U.
+
+    Lemma Rsurv_unit thr : Rsurv thr [(0, 1)] [(0, 1)].
+    Proof. split; [exact okd_unit | intros x Hx _; exact Hx]. Qed.
+
+    Lemma Rsurv_conv thr (A A' B B' : distF) :
+      Rsurv thr A A' -> Rsurv thr B B' -> Rsurv thr (convolve_with N A B thr) (cross_all N A' B').
+    Proof.
+      intros [HoA HA] [HoB HB]. split; [apply okd_cross; assumption | apply keeps_conv; assumption].
+    Qed.
+
+    Lemma Rsurv_perm thr (P U U' : distF) : Rsurv thr P U -> Permutation U U' -> Rsurv thr P U'.
+    Proof.
+      intros [Ho Hk] HP. apply Permutation_sym in HP. split.
+      - intros x Hx. apply Ho. exact (Permutation_in x HP Hx).
+      - intros x Hx Ht. apply Hk; [exact (Permutation_in x HP Hx) | exact Ht].
+    Qed.
+
+    Lemma Rsurv_refl thr (d : distF) : okd d -> Rsurv thr d d.
+    Proof. intros Ho. split; [exact Ho | intros x Hx _; exact Hx]. Qed.
+
+    Lemma survivors : forall c thr x,
+      c <> [] -> (forall ec, In ec c -> (0 <= snd ec < 2 ^ 31)%Z) -> abundances_ok N c ->
+      In x (naive_all N c) -> leb N thr (snd x) = true -> In x (conv_all N c thr).
+    Proof.
+      intros c thr x Hne Hb Hab Hx Ht.
+      assert (HR : Rsurv thr (conv_all N c thr) (naive_all N c)).
+      { apply (all_gen thr (Rsurv thr)).
+        - apply Rsurv_unit.
+        - apply Rsurv_conv.
+        - apply Rsurv_perm.
+        - exact Hne.
+        - intros ec Hin. split; [|apply Hb; exact Hin].
+          apply Rsurv_refl. intros ma Hma. exact (Hab ec ma Hin Hma). }
+      destruct HR as [_ Hk]. apply Hk; assumption.
+    Qed.
+
+    Lemma pow_survivors : forall d n thr x,
+      (0 <= n < 2 ^ 31)%Z -> okd d ->
+      In x (naive_pow N d (Z.to_nat n)) -> leb N thr (snd x) = true -> In x (convolve_pow N 64 d n thr).
+    Proof.
+      intros d n thr x Hn Ho Hx Ht.
+      assert (HR : Rsurv thr (convolve_pow N 64 d n thr) (naive_pow N d (Z.to_nat n))).
+      { apply (pow_gen thr (Rsurv thr)).
+        - apply Rsurv_unit.
+        - apply Rsurv_conv.
+        - apply Rsurv_perm.
+        - apply Rsurv_refl. exact Ho.
+        - exact Hn. }
+      destruct HR as [_ Hk]. apply Hk; assumption.
+    Qed.
+
+    (* all probabilities of the expansion lie in (0, 1] *)
+    Lemma naive_all_okd : forall c,
+      c <> [] -> (forall ec, In ec c -> (0 <= snd ec < 2 ^ 31)%Z) -> abundances_ok N c ->
+      okd (naive_all N c).
+    Proof.
+      intros c Hne Hb Hab.
+      assert (HR : Rsurv 0 (conv_all N c 0) (naive_all N c)).
+      { apply (all_gen 0 (Rsurv 0)).
+        - apply Rsurv_unit.
+        - apply Rsurv_conv.
+        - apply Rsurv_perm.
+        - exact Hne.
+        - intros ec Hin. split; [|apply Hb; exact Hin].
+          apply Rsurv_refl. intros ma Hma. exact (Hab ec ma Hin Hma). }
+      exact (proj1 HR).
+    Qed.
+
+    (* ---------- instance 4: with multiplicities; the satisfiable form of the no-pruning theorems ---------- *)
+
+    Definition keep (thr : F) (x : F * F) : bool := leb N thr (snd x).
+
+    (* exact arithmetic: pruning is filtering the full cross product *)
+    Lemma conv_filter thr (A B : distF) :
+      convolve_with N A B thr = filter (keep thr) (cross_all N A B).
+    Proof.
+      rewrite cross_all_eq, filter_flat_map. unfold convolve_with. apply flat_map_ext. intros b.
+      induction A as [|a A IH]; [reflexivity|].
+      cbn [flat_map map filter]. rewrite IH.
+      change (keep thr (pr b a)) with (leb N thr (snd a *! snd b)).
+      rewrite (of_ltb_def N OF). destruct (leb N thr (snd a *! snd b)); reflexivity.
+    Qed.
+
+    Lemma keep_factors thr a b :
+      (0 <! snd a /\ snd a <=! 1) -> (0 <! snd b /\ snd b <=! 1) ->
+      keep thr (pr b a) = true -> keep thr a = true /\ keep thr b = true.
+    Proof.
+      intros [Ha0 Ha1] [Hb0 Hb1] H. unfold keep, pr in *. cbn [snd] in H. split.
+      - apply (of_le_trans N OF _ (snd a *! snd b)); [exact H|].
+        apply mul_le_l; [apply lt_le; exact Ha0 | exact Hb1].
+      - apply (of_le_trans N OF _ (snd a *! snd b)); [exact H|].
+        apply mul_le_r; [apply lt_le; exact Hb0 | exact Ha1].
+    Qed.
+
+    Lemma filter_cross_l thr b (A : distF) : okd A -> (0 <! snd b /\ snd b <=! 1) ->
+      filter (keep thr) (map (pr b) (filter (keep thr) A)) = filter (keep thr) (map (pr b) A).
+    Proof.
+      intros Ho Hb. induction A as [|a A IH]; [reflexivity|].
+      assert (IH' := IH (fun x Hx => Ho x (or_intror Hx))).
+      cbn [filter map]. destruct (keep thr a) eqn:Ea.
+      - cbn [map filter]. rewrite IH'. reflexivity.
+      - rewrite IH'. destruct (keep thr (pr b a)) eqn:E; [|reflexivity].
+        destruct (keep_factors thr a b (Ho a (or_introl eq_refl)) Hb E) as [Ha' _]. congruence.
+    Qed.
+
+    Lemma filter_cross_dead thr b (A : distF) : okd A -> (0 <! snd b /\ snd b <=! 1) ->
+      keep thr b = false -> filter (keep thr) (map (pr b) A) = [].
+    Proof.
+      intros Ho Hb Eb. induction A as [|a A IH]; [reflexivity|].
+      cbn [map filter]. rewrite (IH (fun x Hx => Ho x (or_intror Hx))).
+      destruct (keep thr (pr b a)) eqn:E; [|reflexivity].
+      destruct (keep_factors thr a b (Ho a (or_introl eq_refl)) Hb E) as [_ Hb']. congruence.
+    Qed.
+
+    Lemma filter_cross thr (A B : distF) : okd A -> okd B ->
+      filter (keep thr) (cross_all N (filter (keep thr) A) (filter (keep thr) B))
+      = filter (keep thr) (cross_all N A B).
+    Proof.
+      intros HoA HoB. induction B as [|b B IH]; [reflexivity|].
+      assert (IH' := IH (fun x Hx => HoB x (or_intror Hx))).
+      pose proof (HoB b (or_introl eq_refl)) as Hb.
+      rewrite cross_cons_r, filter_app. cbn [filter]. destruct (keep thr b) eqn:Eb.
+      - rewrite cross_cons_r, filter_app, IH', filter_cross_l by assumption. reflexivity.
+      - rewrite IH', (filter_cross_dead thr b A HoA Hb Eb). reflexivity.
+    Qed.
+
+    Definition Rms (thr : F) (P U : distF) : Prop :=
+      okd U /\ incl P U /\ Permutation (filter (keep thr) P) (filter (keep thr) U).
+
+    Lemma okd_incl (P U : distF) : incl P U -> okd U -> okd P.
+    Proof. intros Hi Ho x Hx. apply Ho, Hi, Hx. Qed.
+
+    Lemma Rms_unit thr : Rms thr [(0, 1)] [(0, 1)].
+    Proof. split; [exact okd_unit|]. split; [apply incl_refl | apply Permutation_refl]. Qed.
+
+    Lemma Rms_refl thr (d : distF) : okd d -> Rms thr d d.
+    Proof. intros Ho. split; [exact Ho|]. split; [apply incl_refl | apply Permutation_refl]. Qed.
+
+    Lemma Rms_conv thr (A A' B B' : distF) :
+      Rms thr A A' -> Rms thr B B' -> Rms thr (convolve_with N A B thr) (cross_all N A' B').
+    Proof.
+      intros [HoA [HiA HpA]] [HoB [HiB HpB]].
+      split; [apply okd_cross; assumption|]. split; [apply conv_incl; assumption|].
+      rewrite conv_filter, filter_idem.
+      rewrite <- (filter_cross thr A B) by (eapply okd_incl; eassumption).
+      rewrite <- (filter_cross thr A' B') by assumption.
+      apply Permutation_filter. apply cross_perm; assumption.
+    Qed.
+
+    Lemma Rms_perm thr (P U U' : distF) : Rms thr P U -> Permutation U U' -> Rms thr P U'.
+    Proof.
+      intros [Ho [Hi Hp]] HP. split; [|split].
+      - intros x Hx. apply Ho. exact (Permutation_in x (Permutation_sym HP) Hx).
+      - intros x Hx. exact (Permutation_in x HP (Hi x Hx)).
+      - eapply Permutation_trans; [exact Hp | apply Permutation_filter; exact HP].
+    Qed.
+
+    (* the entries at or above the threshold are exactly, with multiplicity, the arrangements at or above it *)
+    Lemma all_multiset : forall c thr,
+      c <> [] -> (forall ec, In ec c -> (0 <= snd ec < 2 ^ 31)%Z) -> abundances_ok N c ->
+      Permutation (filter (keep thr) (conv_all N c thr)) (filter (keep thr) (naive_all N c)).
+    Proof.
+      intros c thr Hne Hb Hab.
+      assert (HR : Rms thr (conv_all N c thr) (naive_all N c)).
+      { apply (all_gen thr (Rms thr)).
+        - apply Rms_unit.
+        - apply Rms_conv.
+        - apply Rms_perm.
+        - exact Hne.
+        - intros ec Hin. split; [|apply Hb; exact Hin].
+          apply Rms_refl. intros ma Hma. exact (Hab ec ma Hin Hma). }
+      exact (proj2 (proj2 HR)).
+    Qed.
+
+    Lemma pow_multiset : forall d n thr,
+      (0 <= n < 2 ^ 31)%Z -> okd d ->
+      Permutation (filter (keep thr) (convolve_pow N 64 d n thr))
+                  (filter (keep thr) (naive_pow N d (Z.to_nat n))).
+    Proof.
+      intros d n thr Hn Ho.
+      assert (HR : Rms thr (convolve_pow N 64 d n thr) (naive_pow N d (Z.to_nat n))).
+      { apply (pow_gen thr (Rms thr)).
+        - apply Rms_unit.
+        - apply Rms_conv.
+        - apply Rms_perm.
+        - apply Rms_refl. exact Ho.
+        - exact Hn. }
+      exact (proj2 (proj2 HR)).
+    Qed.
+
+    (* satisfiable replacements for the hypothesis [forall x, ltb N x thr = false]: the threshold is at or
+       below every probability of the expansion *)
+    Lemma all_expansion_below : forall c thr,
+      c <> [] -> (forall ec, In ec c -> (0 <= snd ec < 2 ^ 31)%Z) -> abundances_ok N c ->
+      (forall x, In x (naive_all N c) -> leb N thr (snd x) = true) ->
+      Permutation (conv_all N c thr) (naive_all N c).
+    Proof.
+      intros c thr Hne Hb Hab Hall.
+      pose proof (all_multiset c thr Hne Hb Hab) as H.
+      rewrite (filter_all (keep thr) (naive_all N c)) in H by exact Hall.
+      rewrite (filter_all (keep thr) (conv_all N c thr)) in H; [exact H|].
+      intros x Hx. apply Hall. exact (no_junk c thr x Hne Hb Hx).
+    Qed.
+
+    Lemma pow_expansion_below : forall d n thr,
+      (0 <= n < 2 ^ 31)%Z -> okd d ->
+      (forall x, In x (naive_pow N d (Z.to_nat n)) -> leb N thr (snd x) = true) ->
+      Permutation (convolve_pow N 64 d n thr) (naive_pow N d (Z.to_nat n)).
+    Proof.
+      intros d n thr Hn Ho Hall.
+      pose proof (pow_multiset d n thr Hn Ho) as H.
+      rewrite (filter_all (keep thr) (naive_pow N d (Z.to_nat n))) in H by exact Hall.
+      rewrite (filter_all (keep thr) (convolve_pow N 64 d n thr)) in H; [exact H|].
+      intros x Hx. apply Hall. exact (pow_no_junk d n thr x Hn Hx).
+    Qed.
+
+    (* in particular a threshold <= 0 prunes nothing *)
+    Lemma all_expansion_nonpos : forall c thr,
+      c <> [] -> (forall ec, In ec c -> (0 <= snd ec < 2 ^ 31)%Z) -> abundances_ok N c ->
+      leb N thr 0 = true -> Permutation (conv_all N c thr) (naive_all N c).
+    Proof.
+      intros c thr Hne Hb Hab Ht. apply all_expansion_below; try assumption.
+      intros x Hx. apply (of_le_trans N OF _ 0); [exact Ht|].
+      apply lt_le. exact (proj1 (naive_all_okd c Hne Hb Hab x Hx)).
+    Qed.
+  End WithField.
+End ConvProofs.
